@@ -34,6 +34,8 @@ def programs(quick, seed):
     P['rsiblings2'] = progs.Program('rsiblings2', [G('Outer', [G('Ga', [L('X', 'int32', tag='x')], tag='ga'), G('Gb', [L('Y', 'int64', 'opt', tag='y')], 'opt', tag='gb'), L('Z', 'bool', tag='z')], 'opt', tag='outer'), L('Tail', 'string', tag='tail')])
     # column and group names that start with an underscore (strings.Title leaves them as they are)
     P['runderscore'] = progs.Program('runderscore', [L('Id', 'int64', tag='_id'), G('Meta', [L('Rev', 'int32', tag='rev'), L('Who', 'string', 'opt', tag='_who')], 'opt', tag='_meta'), L('Tail', 'string', tag='tail')])
+    # names whose first letter is not ASCII (a byte-wise capitalisation would break them)
+    P['runicode'] = progs.Program('runicode', [L('Etiquette', 'string', tag='\u00e9tiquette'), G('Uber', [L('Hoehe', 'float64', 'opt', tag='\u00e9l\u00e9vation'), L('Ok', 'bool', tag='ok')], 'opt', tag='\u00fcber'), L('Groesse', 'int64', tag='gr\u00f6\u00dfe')])
     return P
 
 
